@@ -10,7 +10,7 @@ from vmon.fresh import Zygote
 from vmon import hooks
 from vmon.hooks import YieldInjector, call_guard, cache_probe, MON
 from vmon.molgen import random_tree_mol, spell
-from vmon.aromgen import standard_system
+from vmon.aromgen import standard_system, benzenoid_system
 from vmon.refsem import tokens_with_dots
 from vmon.selfgen import LiveGen
 from vmon.zygote import jsonable
@@ -111,7 +111,10 @@ def make_sync_jobs(rng, table):
     jobs = []
     for _ in range(24):
         sizes = rng.choice([(6,), (6,), (5, 6, 6, 7), (5, 6, 6)])
-        m, _, _ = standard_system(rng, nrings=rng.choice([5, 8, 10, 14, 20]), sizes=sizes, chords=0)
+        if rng.random() < 0.4:
+            m, _, _ = benzenoid_system(rng, rng.choice([5, 8, 10, 14]))
+        else:
+            m, _, _ = standard_system(rng, nrings=rng.choice([5, 8, 10, 14, 20]), sizes=sizes, chords=0)
         jobs.append(["e", spell(m, rng)[0], {"strict": False}])
     for _ in range(4):
         syms = ["[%d%s%s]" % (rng.randint(100000, 999999), rng.choice(["C", "N", "O", "S", "P", "Si", "Fe"]), rng.choice(["", "", "H1", "+1", "-1"]))
